@@ -18,12 +18,15 @@ import (
 func init() {
 	Register(&Prop{
 		ID: "C20",
-		Decides: "app/eth2wrap.DutiesCache: (Z1) the proposer/attester/sync copies of the cache entry point and of fetch*, storeOrAmend*, trimBefore*, trimAfter* are the same SSA up to role renaming; " +
-			"(Z2) requestedIdxs/duties/metadata of the three stores and ValIdxs.valIdxs are touched only under their embedded RWMutex; " +
+		Decides: "app/eth2wrap.DutiesCache: (Z1) the proposer/attester/sync copies of the cache entry point and of fetch*, storeOrAmend*, trimBefore*, trimAfter* are the same function up to role renaming: " +
+			"same canonical SSA, or - when written differently - the same effects (calls, map updates, deletions, stores, returns, each with structurally rendered operands) under equivalent conditions for every valuation of the condition atoms; " +
+			"(Z2) requestedIdxs/duties/metadata of the three stores and ValIdxs.valIdxs are touched only under their embedded RWMutex, including writes made by handing the map to maps.DeleteFunc / an in-package helper that modifies its argument; " +
 			"(Z3) no reference-typed part of a result aliases cache storage, and nothing written into cache storage is also handed to the caller or owned by the caller; " +
-			"(Z4) every trim deletes from all three maps under the same key comparison against the epoch parameter, Trim/InvalidateCache reach all three stores, the hit/miss decision is computed from the " +
-			"stored requestedIdxs, the fast-path return is confined to `no index missing`, the beacon request asks for exactly the missing indices of the requested epoch and the same slice is recorded as requested; " +
-			"(Z5) production wiring subscribes InvalidateCache to chain-reorg events and calls Trim from the slot subscriber.",
+			"(Z4) every per-store trim function reached from Trim/InvalidateCache (directly or through a fully executed loop over a literal list of method values) removes from all three maps exactly the epochs k with k < / <= bound (Trim) or k > / >= bound (InvalidateCache), " +
+			"decided by evaluating the deleting code (scan + delete, maps.DeleteFunc predicate, in-package helper) under the three orderings of k and the bound; the hit/miss decision is computed from the stored requestedIdxs: " +
+			"the cache-only answer is unreachable unless the epoch is cached and the missing set is empty, the missing set is the request set minus the stored requestedIdxs (membership by set lookup or slices.Contains/Index, possibly inside an in-package helper), " +
+			"after a partial hit the beacon node is asked for exactly the missing indices of the requested epoch and the same slice is recorded as requested; " +
+			"(Z5) production wiring subscribes InvalidateCache (method value or forwarding literal) to chain-reorg events and calls Trim from the slot subscriber.",
 		NotDecided: "equality with the uncached beacon answer over request histories and interleavings (a value/schedule statement); values boxed in `any` inside the metadata map are assumed immutable " +
 			"(a shallow map clone counts as a private copy).",
 		Assumptions: []string{"values boxed in `any` inside the beacon response metadata are immutable scalars (roots, booleans): copying a map[string]any one level deep isolates it"},
@@ -51,7 +54,9 @@ func c20Fn(c *rt.Ctx, method string) *ssa.Function {
 
 func c20(c *rt.Ctx) {
 	c.Rule("Z1", 13, func() { c20Z1(c) })
-	c.Rule("Z2", 67, func() { c20Z2(c) })
+	// Z2: 10 guarded fields, each read and written in at least one function, plus the read→write and entry-requirement
+	// obligations; the count above that depends on how the accesses are spread over functions (checked per field in c20Z2)
+	c.Rule("Z2", 24, func() { c20Z2(c) })
 	c.Rule("Z3", 15, func() { c20Z3(c) })
 	c.Rule("Z4", 42, func() { c20Z4(c) })
 	c.Rule("Z5", 2, func() { c20Z5(c) })
@@ -227,12 +232,50 @@ func c20Z1(c *rt.Ctx) {
 		var lines [3][]string
 		var at [3][]ssa.Instruction
 		var fns [3]*ssa.Function
+		var full, skel [3][]string
 		for i, n := range fam.names {
 			fns[i] = c20Fn(c, n)
 			lines[i], at[i] = c20Canon(fns[i])
 			canon[i] = strings.Join(lines[i], "\n")
 		}
+		// second level (c20z.go): siblings whose SSA differs are still the same function when their effect
+		// fingerprints agree; when only the skeletons agree (same effects and condition atoms, but how the
+		// conditions are combined is not comparable) the verdict is undecided
+		fingerprint := func(i int) {
+			if full[i] == nil {
+				full[i], skel[i] = c20Fingerprint(fns[i])
+			}
+		}
+		var effs [3][]c20Effect
+		same := func(i, j int) bool {
+			if canon[i] == canon[j] {
+				return true
+			}
+			fingerprint(i)
+			fingerprint(j)
+			if strings.Join(full[i], "\n") == strings.Join(full[j], "\n") {
+				return true
+			}
+			// the same effects under the same conditions, however the conditions are nested or merged
+			for _, k := range []int{i, j} {
+				if effs[k] == nil {
+					effs[k] = c20Effects(fns[k], "")
+				}
+			}
+			eq, ok := c20SameEffects(effs[i], effs[j])
+			return ok && eq
+		}
+		similar := func(i, j int) bool {
+			fingerprint(i)
+			fingerprint(j)
+			return strings.Join(skel[i], "\n") == strings.Join(skel[j], "\n")
+		}
 		diff := func(i, j int) string { // first difference of sibling i against sibling j
+			fingerprint(i)
+			fingerprint(j)
+			if d := c20FirstDiff(full[i], full[j]); d != "" {
+				return fmt.Sprintf("effects differ from %s — %s", fam.names[j], d)
+			}
 			for k := 0; k < len(lines[i]) && k < len(lines[j]); k++ {
 				if lines[i][k] != lines[j][k] {
 					return fmt.Sprintf("first difference against %s at %s: `%s` vs `%s`", fam.names[j], c.P.Pos(posOf(at[i][k])), lines[i][k], lines[j][k])
@@ -249,34 +292,41 @@ func c20Z1(c *rt.Ctx) {
 				}
 			}
 			if len(peers) == 0 {
-				same := true
+				allSame := true
 				for j := range fam.names {
-					if canon[j] != canon[i] {
-						same = false
+					if !same(i, j) {
+						allSame = false
 					}
 				}
-				if same {
+				if allSame {
 					c.Good("sibling "+fam.names[i], fns[i].Pos(), "identical to the other roles")
 				} else {
 					c.Note("Z1: %s has no sibling with the same element copy semantics and differs from the other roles; not compared", fam.names[i])
 				}
 				continue
 			}
-			agree, first := 0, -1
+			agree, close, first := 0, 0, -1
 			for _, j := range peers {
-				if canon[i] == canon[j] {
+				if same(i, j) {
 					agree++
-				} else if first < 0 {
+					continue
+				}
+				if similar(i, j) {
+					close++
+				}
+				if first < 0 {
 					first = j
 				}
 			}
 			// with two peers, agreeing with one of them makes the other one the odd sibling
-			ok := agree == len(peers) || (len(peers) == 2 && agree == 1)
-			why := ""
-			if !ok {
-				why = "sibling implementation diverges from the other role(s); " + diff(i, first)
+			switch {
+			case agree == len(peers) || (len(peers) == 2 && agree == 1):
+				c.Good("sibling "+fam.names[i], fns[i].Pos(), "")
+			case agree+close == len(peers) || (len(peers) == 2 && agree+close >= 1):
+				c.Unsure("sibling "+fam.names[i], fns[i].Pos(), "sibling differs in form from the other role(s) with the same effects and the same condition atoms; whether the conditions are combined the same way is not decided; "+diff(i, first))
+			default:
+				c.Bad("sibling "+fam.names[i], fns[i].Pos(), "sibling implementation diverges from the other role(s); "+diff(i, first))
 			}
-			c.Check("sibling "+fam.names[i], fns[i].Pos(), ok, why)
 		}
 	}
 }
@@ -288,11 +338,77 @@ func c20Z2(c *rt.Ctx) {
 	table := an.LockTable{c20Pkg + ".ValIdxs.valIdxs": "RWMutex"} // replaced as a whole by UpdateActiveValIndices, read by the entry points
 	for _, r := range c20Roles {
 		for _, f := range c20StateFields {
-			// every access is in fetch*/storeOrAmend*/trim* between Lock/RLock and the deferred unlock of the embedded mutex
+			// every access is in fetch*/storeOrAmend*/trim* between Lock/RLock and the unlock of the embedded mutex
 			table[c20Pkg+"."+r.name+"Duties."+f] = "RWMutex"
 		}
 	}
+	n0 := len(c.Findings)
 	lockRule(c, []string{c20Pkg}, table)
+	// writes the core lockset sees only as reads: the guarded map handed to maps.DeleteFunc / maps.Copy / an
+	// in-package helper that deletes from its parameter
+	type agg struct {
+		pos         token.Pos
+		n           int
+		bad, unsure string
+	}
+	groups := map[string]*agg{}
+	var order []string
+	for _, f := range an.H1920IndirectWrites(an.PkgFuncs(c.SSAPkg(c20Pkg)), table) {
+		k := fmt.Sprintf("%s %s write (through a call)", an.FuncName(f.Fn), f.Field)
+		g := groups[k]
+		if g == nil {
+			g = &agg{pos: f.Instr.Pos()}
+			groups[k] = g
+			order = append(order, k)
+		}
+		g.n++
+		switch {
+		case f.Unsure && g.unsure == "":
+			g.unsure = f.Detail
+		case !f.OK && !f.Unsure && g.bad == "":
+			g.bad, g.pos = f.Detail, f.Instr.Pos()
+		}
+	}
+	sort.Strings(order)
+	for _, k := range order {
+		g := groups[k]
+		switch {
+		case g.bad != "":
+			c.Bad(k, g.pos, g.bad)
+		case g.unsure != "":
+			c.Unsure(k, g.pos, g.unsure)
+		default:
+			c.Good(k, g.pos, fmt.Sprintf("%d call(s) modifying the guarded map in place under the write lock", g.n))
+		}
+	}
+	// vacuity per guarded field (the instance count depends on how the accesses are spread over functions):
+	// every field of the table is read under its lock somewhere and written under its lock somewhere
+	seen := map[string]bool{}
+	for _, f := range c.Findings[n0:] {
+		if f.Rule != "Z2" || f.Status != rt.OK {
+			continue
+		}
+		for field := range table {
+			if strings.Contains(f.Construct, " "+field+" read") {
+				seen[field+" read"] = true
+			}
+			if strings.Contains(f.Construct, " "+field+" write") {
+				seen[field+" write"] = true
+			}
+		}
+	}
+	var fields []string
+	for field := range table {
+		fields = append(fields, field)
+	}
+	sort.Strings(fields)
+	for _, field := range fields {
+		for _, mode := range []string{"read", "write"} {
+			if !seen[field+" "+mode] {
+				c.Unsure("table "+field+" "+mode, token.NoPos, "no "+mode+" of the guarded field under its mutex was found (renamed, or accessed in a form that is not followed)")
+			}
+		}
+	}
 }
 
 // c20Seg is the part of the three entry points that is textually identical up to the duty type:
@@ -399,6 +515,17 @@ func c20Mutants() []Mutant {
 		{ID: "C20-Z1-amend-proposer-wrong-list", File: f, Expect: "Z1|storeOrAmendProposerDuties",
 			Old: "alreadyRequestedIdxs := c.proposerDuties.requestedIdxs[epoch]\n\n\tfor _, idx := range dutiesForEpoch.requestedIdxs {\n\t\tif !slices.Contains(alreadyRequestedIdxs, idx) {",
 			New: "alreadyRequestedIdxs := c.proposerDuties.requestedIdxs[epoch]\n\t_ = alreadyRequestedIdxs\n\n\tfor _, idx := range dutiesForEpoch.requestedIdxs {\n\t\tif !slices.Contains(newlyFetchedIdxs, idx) {"},
+		{ID: "C20-Z1-trim-attester-one-map-inclusive", File: f, Expect: "Z1|trimBeforeAttesterDuties",
+			Old: "\tfor k := range c.attesterDuties.metadata {\n\t\tif k < epoch {", New: "\tfor k := range c.attesterDuties.metadata {\n\t\tif k <= epoch {"},
+		{ID: "C20-Z1-fetch-attester-no-metadata-check", File: f, Expect: "Z1|fetchAttesterDuties",
+			Old: "\tmetadata, ok := c.attesterDuties.metadata[epoch]\n\tif !ok {\n\t\treturn AttesterDutiesForEpoch{}, false\n\t}\n",
+			New: "\tmetadata := c.attesterDuties.metadata[epoch]\n"},
+		{ID: "C20-Z1-amend-attester-never-reports-append", File: f, Expect: "Z1|storeOrAmendAttesterDuties",
+			Old: "\talreadyRequestedIdxs := c.attesterDuties.requestedIdxs[epoch]\n\n\tfor _, idx := range dutiesForEpoch.requestedIdxs {\n\t\tif !slices.Contains(alreadyRequestedIdxs, idx) {\n\t\t\tappended = true\n\n",
+			New: "\talreadyRequestedIdxs := c.attesterDuties.requestedIdxs[epoch]\n\n\tfor _, idx := range dutiesForEpoch.requestedIdxs {\n\t\tif !slices.Contains(alreadyRequestedIdxs, idx) {\n"},
+		{ID: "C20-Z1-amend-proposer-inverted-match", File: f, Expect: "Z1|storeOrAmendProposerDuties",
+			Old: "\tnewlyFetchedDuties := []eth2v1.ProposerDuty{}\n\n\tfor _, idx := range newlyFetchedIdxs {\n\t\tfor _, d := range dutiesForEpoch.duties {\n\t\t\tif d.ValidatorIndex == idx {",
+			New: "\tnewlyFetchedDuties := []eth2v1.ProposerDuty{}\n\n\tfor _, idx := range newlyFetchedIdxs {\n\t\tfor _, d := range dutiesForEpoch.duties {\n\t\t\tif d.ValidatorIndex != idx {"},
 		// Z2
 		{ID: "C20-Z2-store-sync-no-lock", File: f, Expect: "Z2",
 			Old: "\tc.syncDuties.Lock()\n\tdefer c.syncDuties.Unlock()\n\n\talreadySavedDuties", New: "\talreadySavedDuties"},
@@ -458,6 +585,23 @@ func c20Mutants() []Mutant {
 		{ID: "C20-Z4-sync-store-failed-response", File: f, Expect: "Z4|SyncCommDutiesCache store only",
 			Old: "Indices: requestVidxs})\n\tif err != nil {\n\t\treturn SyncDutyWithMeta{}, err\n\t}",
 			New: "Indices: requestVidxs})\n\tif err != nil {\n\t\tlog.Debug(ctx, \"Sync duties request failed\", z.Err(err))\n\t}"},
+		// added with the shape-independent formulation of Z2/Z4 (c20x.go, c20y.go)
+		{ID: "C20-Z4-deletefunc-wrong-direction", File: f, Expect: "Z4|InvalidateCache→syncDuties.requestedIdxs",
+			Old: "\tfor k := range c.syncDuties.requestedIdxs {\n\t\tif k > epoch {\n\t\t\tdelete(c.syncDuties.requestedIdxs, k)\n\n\t\t\tok = true\n\t\t}\n\t}\n",
+			New: "\tmaps.DeleteFunc(c.syncDuties.requestedIdxs, func(k eth2p0.Epoch, _ []eth2p0.ValidatorIndex) bool { return k < epoch })\n"},
+		{ID: "C20-Z2-deletefunc-under-read-lock", File: f, Expect: "Z2|write (through a call)",
+			Old: "func (c *DutiesCache) trimBeforeAttesterDuties(epoch eth2p0.Epoch) bool {\n\tc.attesterDuties.Lock()\n\tdefer c.attesterDuties.Unlock()",
+			New: "func (c *DutiesCache) trimBeforeAttesterDuties(epoch eth2p0.Epoch) bool {\n\tc.attesterDuties.RLock()\n\tdefer c.attesterDuties.RUnlock()",
+			More: [][2]string{{"\tfor k := range c.attesterDuties.metadata {\n\t\tif k < epoch {\n\t\t\tdelete(c.attesterDuties.metadata, k)\n\n\t\t\tok = true\n\t\t}\n\t}\n",
+				"\tmaps.DeleteFunc(c.attesterDuties.metadata, func(k eth2p0.Epoch, _ map[string]any) bool { return k < epoch })\n"}}},
+		c20SegMutant("C20-Z4-attester-membership-against-request", "Z4|AttesterDutiesCache already-requested", "AttesterDuty",
+			"if _, hit := previouslyRequested[idx]; !hit {", "if !slices.Contains(vidxs, idx) {"),
+		{ID: "C20-Z4-invalidate-loop-stops-early", File: f, Expect: "Z4|InvalidateCache→",
+			Old: "\tok := c.trimAfterProposerDuties(epoch)\n\tif ok {\n\t\tinvalidated = true\n\t}\n\n\tok = c.trimAfterAttesterDuties(epoch)\n\tif ok {\n\t\tinvalidated = true\n\t}\n\n\tok = c.trimAfterSyncDuties(epoch)\n\tif ok {\n\t\tinvalidated = true\n\t}\n",
+			New: "\tfor _, trim := range []func(eth2p0.Epoch) bool{c.trimAfterProposerDuties, c.trimAfterAttesterDuties, c.trimAfterSyncDuties} {\n\t\tif trim(epoch) {\n\t\t\tinvalidated = true\n\n\t\t\tbreak\n\t\t}\n\t}\n"},
+		{ID: "C20-Z4-sync-fast-path-on-other-set", File: f, Expect: "Z4|SyncCommDutiesCache",
+			Old: "\t\tif len(missing) == 0 {\n\t\t\tcacheUsed = true\n\t\t\treturn SyncDutyWithMeta",
+			New: "\t\tif len(missing) == 0 || len(requestedSet) == len(dutiesResult) {\n\t\t\tcacheUsed = true\n\t\t\treturn SyncDutyWithMeta"},
 		// Z5
 		{ID: "C20-Z5-no-reorg-subscription", File: "app/app.go", Expect: "Z5|InvalidateCache",
 			Old: "\t\tsseListener.SubscribeChainReorgEvent(dutiesCache.InvalidateCache)\n", New: ""},
@@ -1252,14 +1396,11 @@ func c20Z4(c *rt.Ctx) {
 	} {
 		api := c20Fn(c, ts.api)
 		epochP := api.Params[len(api.Params)-1]
-		var callees []ssa.CallInstruction
-		for _, ci := range an.Calls(api, func(cc *ssa.CallCommon) bool {
-			f := cc.StaticCallee()
-			return f != nil && f.Pkg == api.Pkg && len(cc.Args) == 2 && cc.Args[0] == ssa.Value(api.Params[0])
-		}, false) {
-			callees = append(callees, ci)
-		}
+		callees, cu := c20TrimCallees(api)
 		if len(callees) == 0 {
+			if cu != "" {
+				c.Bail("%s: %s", ts.api, cu)
+			}
 			c.Bail("%s calls no per-store trim function", ts.api)
 		}
 		for _, role := range c20Roles {
@@ -1267,14 +1408,36 @@ func c20Z4(c *rt.Ctx) {
 			for _, sf := range c20StateFields {
 				fkey := c20Pkg + "." + role.name + "Duties." + sf
 				construct := ts.api + "→" + role.field + "." + sf
-				found, why := false, "no function called from "+ts.api+" deletes from this map"
-				for _, ci := range callees {
-					g := ci.Common().StaticCallee()
-					op, w := c20GuardedDelete(g, fkey)
-					if op == token.ILLEGAL {
-						if w != "no deletion from this map" {
-							why = g.Name() + ": " + w
+				found, why, unsure := false, "no function called from "+ts.api+" deletes from this map", ""
+				for _, tc := range callees {
+					g := tc.g
+					if len(g.Params) < 2 {
+						continue
+					}
+					tr := &c20Trim{bound: g.Params[1]}
+					res := tr.analyse(g, func(v ssa.Value) bool {
+						k, _, ok := an.FieldOf(v)
+						if !ok || k != fkey {
+							return false
 						}
+						// the map itself, not one of its elements
+						_, isMap := v.Type().Underlying().(*types.Map)
+						return isMap
+					}, nil, 0)
+					if !res.found {
+						continue
+					}
+					if res.bad != "" {
+						why = g.Name() + ": " + res.bad
+						continue
+					}
+					if res.unsure != "" {
+						unsure = g.Name() + ": " + res.unsure
+						continue
+					}
+					op, w := res.op()
+					if op == token.ILLEGAL {
+						why = g.Name() + ": " + w
 						continue
 					}
 					okOp := false
@@ -1287,8 +1450,12 @@ func c20Z4(c *rt.Ctx) {
 						why = fmt.Sprintf("%s deletes the epochs k with `k %s bound`, which does not cover every epoch %s the bound", g.Name(), op, ts.what)
 						continue
 					}
+					if !tc.certain {
+						why = g.Name() + ": " + tc.whyNot
+						continue
+					}
 					// the bound handed over
-					arg := an.Unwrap(ci.Common().Args[1])
+					arg := an.Unwrap(tc.bound)
 					okArg := arg == ssa.Value(epochP)
 					if bin, isBin := arg.(*ssa.BinOp); isBin && ts.api == "Trim" && bin.Op == token.SUB && bin.X == ssa.Value(epochP) {
 						if _, isC := bin.Y.(*ssa.Const); isC {
@@ -1303,14 +1470,21 @@ func c20Z4(c *rt.Ctx) {
 						continue
 					}
 					// unconditional: the call is reached on every path that does not leave before any trimming
-					if ts.api == "InvalidateCache" && !c20AllReturnsAfter(api, ci) {
-						why = g.Name() + " is not called on every path through " + ts.api
+					if ts.api == "InvalidateCache" && !tc.always {
+						why = tc.whyNot
 						continue
 					}
 					found = true
 					ops[op] = true
 				}
-				c.Check(construct, api.Pos(), found, why)
+				switch {
+				case found:
+					c.Good(construct, api.Pos(), "")
+				case unsure != "":
+					c.Unsure(construct, api.Pos(), unsure)
+				default:
+					c.Bad(construct, api.Pos(), why)
+				}
 			}
 			if len(ops) > 1 {
 				c.Bad(ts.api+"→"+role.field+" same comparison", api.Pos(), "the three maps of one store are trimmed under different comparisons: an epoch can survive in one map and not in the others")
@@ -1318,291 +1492,9 @@ func c20Z4(c *rt.Ctx) {
 		}
 	}
 
-	// --- hit / miss bookkeeping in the three entry points
+	// --- hit / miss bookkeeping in the three entry points (c20y.go)
 	for _, role := range c20Roles {
-		fn := c20Fn(c, role.entry)
-		epochP, vidxsP := fn.Params[2], fn.Params[3]
-		_ = vidxsP
-		fetch := c20Fn(c, "fetch"+role.name+"Duties")
-		store := c20Fn(c, "storeOrAmend"+role.name+"Duties")
-		fetchCall := c.OneCall(fn, func(cc *ssa.CallCommon) bool { return cc.StaticCallee() == fetch }, fetch.Name(), false)
-		storeCall := c.OneCall(fn, func(cc *ssa.CallCommon) bool { return cc.StaticCallee() == store }, store.Name(), false)
-		beacon := c.OneCall(fn, an.Invoke(c20Pkg+".Client."+role.beacon), "eth2Cl."+role.beacon, false)
-		var okFetch ssa.Value
-		for _, ref := range *fetchCall.Value().Referrers() {
-			if ex, ok := ref.(*ssa.Extract); ok && ex.Index == 1 {
-				okFetch = ex
-			}
-		}
-		if okFetch == nil {
-			c.Bail("%s: availability result of %s is discarded", role.entry, fetch.Name())
-		}
-		var hitEdge *ssa.BasicBlock // block entered when the epoch is cached
-		for _, cd := range an.CondsOn(fn, okFetch) {
-			if cd.Other == nil && len(cd.Succ(true).Preds) == 1 {
-				hitEdge = cd.Succ(true)
-			}
-		}
-		if hitEdge == nil {
-			c.Bail("%s: no branch on the availability result of %s", role.entry, fetch.Name())
-		}
-		// success returns
-		var fast []*ssa.Return
-		for _, r := range an.Returns(fn) {
-			vals := c20RetVals(r)
-			if len(vals) != 2 || !an.IsNilConst(vals[1]) {
-				continue
-			}
-			if k, isC := vals[0].(*ssa.Const); isC && k.Value == nil {
-				continue
-			}
-			if !beacon.Block().Dominates(r.Block()) {
-				fast = append(fast, r)
-			}
-		}
-		if len(fast) == 0 {
-			c.Bail("%s: no return that answers from the cache alone", role.entry)
-		}
-		var missing ssa.Value
-		for _, r := range fast {
-			c.Check(role.entry+" cache-only answer requires a cached epoch", posOf(r), hitEdge.Dominates(r.Block()),
-				"a return that does not ask the beacon node is reachable although the epoch is not cached")
-			// len(M) == 0 on the edge to r
-			var m ssa.Value
-			for _, b := range fn.Blocks {
-				iff, ok := b.Instrs[len(b.Instrs)-1].(*ssa.If)
-				if !ok || !b.Dominates(r.Block()) {
-					continue
-				}
-				bin, ok := iff.Cond.(*ssa.BinOp)
-				if !ok {
-					continue
-				}
-				lenArg := func(v ssa.Value) ssa.Value {
-					if lc, ok := v.(*ssa.Call); ok {
-						if bi, ok := lc.Call.Value.(*ssa.Builtin); ok && bi.Name() == "len" {
-							return lc.Call.Args[0]
-						}
-					}
-					return nil
-				}
-				op, lv, kv := bin.Op, bin.X, bin.Y
-				if lenArg(lv) == nil {
-					op, lv, kv = c20Flip(bin.Op), bin.Y, bin.X
-				}
-				arg := lenArg(lv)
-				n, isConst := an.ConstInt(kv)
-				if arg == nil || !isConst {
-					continue
-				}
-				// which edge implies len(arg) == 0 (a length is never negative)
-				var edge *ssa.BasicBlock
-				switch {
-				case (op == token.EQL && n == 0) || (op == token.LSS && n == 1) || (op == token.LEQ && n == 0):
-					edge = b.Succs[0]
-				case (op == token.NEQ && n == 0) || (op == token.GTR && n == 0) || (op == token.GEQ && n == 1):
-					edge = b.Succs[1]
-				default:
-					continue
-				}
-				if c20OnEdge(edge, r.Block()) && hitEdge.Dominates(b) {
-					m = arg
-				}
-			}
-			c.Check(role.entry+" cache-only answer requires an empty missing set", posOf(r), m != nil,
-				"the return that answers from the cache alone is not confined to the edge `len(missing) == 0`")
-			if m != nil {
-				missing = m
-			}
-		}
-		if missing == nil {
-			continue
-		}
-		// provenance of missing
-		phis := map[ssa.Value]bool{}
-		var appends []*ssa.Call
-		shape := ""
-		var walk func(v ssa.Value)
-		walk = func(v ssa.Value) {
-			if phis[v] {
-				return
-			}
-			switch x := v.(type) {
-			case *ssa.Phi:
-				phis[v] = true
-				for _, e := range x.Edges {
-					walk(e)
-				}
-			case *ssa.Const:
-				if x.Value != nil {
-					shape = "missing set starts from a non-empty constant"
-				}
-			case *ssa.Call:
-				if bi, ok := x.Call.Value.(*ssa.Builtin); ok && bi.Name() == "append" {
-					appends = append(appends, x)
-					walk(x.Call.Args[0])
-					return
-				}
-				shape = "missing set is produced by a call that is not followed"
-			case *ssa.MakeSlice:
-			default:
-				shape = fmt.Sprintf("missing set has an origin that is not followed (%T)", v)
-			}
-		}
-		walk(missing)
-		if shape != "" || len(appends) == 0 {
-			if shape == "" {
-				shape = "nothing is ever added to the missing set"
-				c.Bad(role.entry+" missing = requested minus stored requestedIdxs", fn.Pos(), shape)
-			} else {
-				c.Unsure(role.entry+" missing = requested minus stored requestedIdxs", fn.Pos(), shape)
-			}
-			continue
-		}
-		var reqSet ssa.Value // the collection the miss loop ranges over
-		good, why := true, ""
-		fail := func(w string) {
-			if good {
-				good, why = false, w
-			}
-		}
-		prevGood, prevWhy := true, ""
-		prevFail := func(w string) {
-			if prevGood {
-				prevGood, prevWhy = false, w
-			}
-		}
-		for _, ap := range appends {
-			elems := appendedElems(ap)
-			l := an.InnermostLoop(fn, ap.Block())
-			if len(elems) != 1 || l == nil || !l.ElemOf(elems[0]) {
-				fail("an index is added to the missing set that is not the index currently examined")
-				continue
-			}
-			if !c20LoopClosed(l) {
-				fail("the loop over the requested indices can stop early")
-			}
-			if reqSet != nil && reqSet != l.RangeColl() {
-				fail("missing indices are collected from different request sets")
-			}
-			reqSet = l.RangeColl()
-			// the append lies on the absent edge of a comma-ok lookup of the element in a set
-			var set ssa.Value
-			for _, in := range an.Instrs(fn, false) {
-				lk, ok := in.(*ssa.Lookup)
-				if !ok || !lk.CommaOk || !l.Body[lk.Block()] || !an.Equiv(lk.Index, elems[0]) {
-					continue
-				}
-				for _, ref := range *lk.Referrers() {
-					ex, ok := ref.(*ssa.Extract)
-					if !ok || ex.Index != 1 {
-						continue
-					}
-					for _, cd := range an.CondsOn(fn, ex) {
-						if cd.Other != nil || !c20OnEdge(cd.Succ(false), ap.Block()) {
-							continue
-						}
-						all := true
-						for _, la := range l.Latches {
-							if !cd.If.Block().Dominates(la) {
-								all = false
-							}
-						}
-						if all {
-							set = lk.X
-						}
-					}
-				}
-			}
-			if set == nil {
-				fail("an index is added to the missing set without having been looked up (and found absent) in the set of stored requested indices")
-				continue
-			}
-			mm, ok := set.(*ssa.MakeMap)
-			if !ok {
-				prevFail("the set the requested indices are looked up in is not a locally built map")
-				continue
-			}
-			nUp := 0
-			for _, ref := range *mm.Referrers() {
-				switch r := ref.(type) {
-				case *ssa.MapUpdate:
-					nUp++
-					l2 := an.InnermostLoop(fn, r.Block())
-					switch {
-					case l2 == nil || !l2.ElemOf(r.Key):
-						prevFail("the set of already requested indices receives a key that is not an element of a scanned list")
-					case !c20FromCallField(l2.RangeColl(), fetchCall.Value(), "requestedIdxs"):
-						prevFail("the set of already requested indices is not filled from the requestedIdxs stored for the epoch (a validator without a duty would be asked for again, or a never-asked one taken as known)")
-					case !c20LoopClosed(l2):
-						prevFail("the scan of the stored requestedIdxs can stop early")
-					case !l2.Header.Dominates(l.Header) || l2.Body[l.Header]:
-						prevFail("the set of already requested indices is not complete before the requested indices are examined")
-					default:
-						for _, la := range l2.Latches {
-							if !r.Block().Dominates(la) {
-								prevFail("some stored requested index can be skipped when the set is built")
-							}
-						}
-					}
-				case *ssa.Lookup, *ssa.DebugRef:
-				case *ssa.Call:
-					if bi, ok := r.Call.Value.(*ssa.Builtin); !ok || bi.Name() != "len" {
-						prevFail("the set of already requested indices is modified or handed out before use")
-					}
-				default:
-					prevFail("the set of already requested indices is modified or handed out before use")
-				}
-			}
-			if nUp == 0 {
-				prevFail("the set of already requested indices is never filled")
-			}
-		}
-		c.Check(role.entry+" missing = requested minus already-requested", fn.Pos(), good, why)
-		c.Check(role.entry+" already-requested = stored requestedIdxs", fn.Pos(), prevGood, prevWhy)
-
-		// the beacon request
-		opts := beacon.Common().Args[1]
-		idx := c20FieldStore(opts, "Indices")
-		if idx == nil {
-			c.Unsure(role.entry+" beacon request indices", beacon.Pos(), "cannot resolve the Indices of the request options")
-		} else {
-			good, why := true, ""
-			if ph, ok := idx.(*ssa.Phi); ok && ph.Block().Dominates(beacon.Block()) {
-				for i, e := range ph.Edges {
-					pred := ph.Block().Preds[i]
-					if hitEdge.Dominates(pred) {
-						if !phis[e] {
-							good, why = false, "after a partial hit the beacon node is not asked for exactly the missing indices"
-						}
-					} else if reqSet != nil && e != reqSet {
-						good, why = false, "without a cached epoch the beacon node is not asked for the full requested set the hit/miss decision is computed from"
-					}
-				}
-			} else if phis[idx] {
-				// only reachable through the partial-hit branch
-				if !hitEdge.Dominates(beacon.Block()) {
-					good, why = false, "the missing set is requested although the epoch may not be cached"
-				}
-			} else {
-				good, why = false, "after a partial hit the beacon node is not asked for exactly the missing indices"
-			}
-			c.Check(role.entry+" beacon request indices", beacon.Pos(), good, why)
-			rec := c20FieldStore(storeCall.Common().Args[2], "requestedIdxs")
-			if rec == nil {
-				c.Unsure(role.entry+" recorded requestedIdxs = requested indices", storeCall.Pos(), "cannot resolve the requestedIdxs handed to the cache store")
-			} else {
-				c.Check(role.entry+" recorded requestedIdxs = requested indices", storeCall.Pos(), rec == idx,
-					"the indices recorded as requested for the epoch are not the slice sent to the beacon node")
-			}
-		}
-		ep := c20FieldStore(opts, "Epoch")
-		okEp := ep == ssa.Value(epochP) && fetchCall.Common().Args[1] == ssa.Value(epochP) && storeCall.Common().Args[1] == ssa.Value(epochP)
-		c.Check(role.entry+" one epoch for lookup, request and store", beacon.Pos(), okEp,
-			"cache lookup, beacon request and cache store do not all use the epoch parameter")
-		// the response is what gets stored: guarded by its error
-		g, w := an.Guarded(beacon, storeCall, an.DefaultGuard)
-		c.Check(role.entry+" store only a successful response", storeCall.Pos(), g, "cache store reachable although the beacon request failed: "+w)
+		c20HitMiss(c, role)
 	}
 }
 
@@ -1622,35 +1514,69 @@ func c20AllReturnsAfter(fn *ssa.Function, ci ssa.CallInstruction) bool {
 func c20Z5(c *rt.Ctx) {
 	wire := c.Fn("app.wireCoreWorkflow")
 	const dc = c20Pkg + ".DutiesCache."
-	// the cache object(s) installed as the client's duties cache
-	boundRecv := func(v ssa.Value, method string) ssa.Value {
-		mc, ok := an.Unwrap(v).(*ssa.MakeClosure)
-		if !ok || len(mc.Bindings) != 1 {
-			return nil
+	// the variable a cache pointer is read from (a captured local), or the value itself; inside a literal a captured
+	// variable is resolved to the variable of the enclosing function
+	slot := func(v ssa.Value) ssa.Value {
+		v = an.Unwrap(v)
+		if ld, ok := v.(*ssa.UnOp); ok && ld.Op == token.MUL {
+			return c19Cell(ld.X)
+		}
+		return v
+	}
+	// cacheOf resolves a function value to the duties cache whose method `method` it invokes: a method value
+	// c.method, or a literal that calls c.method with its own parameters on every path
+	cacheOf := func(v ssa.Value, method string) (recv ssa.Value, unknown bool) {
+		mc, ok := an.Resolve(v).(*ssa.MakeClosure)
+		if !ok {
+			return nil, true
 		}
 		f, ok := mc.Fn.(*ssa.Function)
-		if !ok || an.FuncName(f) != dc+method && !strings.HasPrefix(f.Name(), method+"$bound") {
-			return nil
+		if !ok {
+			return nil, true
 		}
-		if f.Synthetic == "" || !strings.Contains(f.String(), "DutiesCache") {
-			return nil
+		if f.Synthetic != "" {
+			if m, r := c20BoundMethod(mc); m != nil && an.FuncName(m) == dc+method {
+				return slot(r), false
+			}
+			return nil, false
 		}
-		return mc.Bindings[0]
-	}
-	slot := func(v ssa.Value) ssa.Value { // the variable a cache pointer is read from
-		if ld, ok := an.Unwrap(v).(*ssa.UnOp); ok && ld.Op == token.MUL {
-			return ld.X
+		// a literal wrapper
+		calls := an.Calls(f, an.Static(dc+method), false)
+		if len(calls) == 0 {
+			return nil, len(an.Calls(f, an.Static(dc+method), true)) > 0
 		}
-		return an.Unwrap(v)
+		if len(calls) != 1 {
+			return nil, true
+		}
+		call, isCall := calls[0].(*ssa.Call)
+		if !isCall {
+			return nil, true
+		}
+		for _, r := range an.Returns(f) {
+			if !call.Block().Dominates(r.Block()) {
+				return nil, true // conditional forwarding: not followed
+			}
+		}
+		// the wrapper's parameters are handed on in order
+		args := call.Call.Args[1:]
+		if len(args) != len(f.Params) {
+			return nil, true
+		}
+		for i, a := range args {
+			if !c19Only(a, f.Params[i]) && an.Unwrap(a) != ssa.Value(f.Params[i]) {
+				return nil, true
+			}
+		}
+		return slot(call.Call.Args[0]), false
 	}
 	var installs []ssa.CallInstruction
 	var caches []ssa.Value
 	for _, ci := range an.Calls(wire, func(cc *ssa.CallCommon) bool { return cc.IsInvoke() && cc.Method.Name() == "SetDutiesCache" }, false) {
 		for _, a := range ci.Common().Args {
 			for _, r := range c20Roles {
-				if recv := boundRecv(a, r.entry); recv != nil {
+				if recv, _ := cacheOf(a, r.entry); recv != nil {
 					installs = append(installs, ci)
-					caches = append(caches, slot(recv))
+					caches = append(caches, recv)
 				}
 			}
 		}
@@ -1659,7 +1585,7 @@ func c20Z5(c *rt.Ctx) {
 		c.Bail("wireCoreWorkflow does not install a DutiesCache through SetDutiesCache")
 	}
 	subs := an.Calls(wire, an.Invoke("app/sse.Listener.SubscribeChainReorgEvent"), false)
-	good, why := true, ""
+	good, why, unsure := true, "", ""
 	for i := range installs {
 		// every creation of the installed cache is inevitably followed by the subscription of its InvalidateCache
 		var creations []ssa.Instruction
@@ -1681,8 +1607,14 @@ func c20Z5(c *rt.Ctx) {
 		for _, cr := range creations {
 			found := false
 			for _, s := range subs {
-				recv := boundRecv(s.Common().Args[0], "InvalidateCache")
-				if recv == nil || slot(recv) != caches[i] {
+				recv, unk := cacheOf(s.Common().Args[0], "InvalidateCache")
+				if recv == nil {
+					if unk {
+						unsure = "a chain-reorg subscriber cannot be resolved to InvalidateCache of a duties cache"
+					}
+					continue
+				}
+				if recv != caches[i] {
 					continue
 				}
 				if _, esc := an.EscapePath(cr, func(in ssa.Instruction) bool { return in == ssa.Instruction(s) }, an.PassOpt{PanicIsExit: true}); !esc {
@@ -1694,10 +1626,17 @@ func c20Z5(c *rt.Ctx) {
 			}
 		}
 	}
-	c.Check("wireCoreWorkflow InvalidateCache subscribed to chain reorgs", installs[0].Pos(), good, why)
+	switch {
+	case good:
+		c.Good("wireCoreWorkflow InvalidateCache subscribed to chain reorgs", installs[0].Pos(), "")
+	case unsure != "":
+		c.Unsure("wireCoreWorkflow InvalidateCache subscribed to chain reorgs", installs[0].Pos(), unsure)
+	default:
+		c.Bad("wireCoreWorkflow InvalidateCache subscribed to chain reorgs", installs[0].Pos(), why)
+	}
 
 	// Trim from a slot subscriber
-	good, why = false, "no slot subscriber calls Trim on the installed duties cache with the epoch of the slot"
+	good, why, unsure = false, "no slot subscriber calls Trim on the installed duties cache with the epoch of the slot", ""
 	var pos token.Pos = wire.Pos()
 	for _, lit := range wire.AnonFuncs {
 		// the literal is registered with the scheduler
@@ -1707,47 +1646,57 @@ func c20Z5(c *rt.Ctx) {
 			if !ok || mc.Fn != ssa.Value(lit) {
 				continue
 			}
-			for _, ref := range *mc.Referrers() {
-				if ci, ok := ref.(ssa.CallInstruction); ok && an.Static("core/scheduler.Scheduler.SubscribeSlots")(ci.Common()) {
-					registered = true
-				}
-			}
-			if !registered {
-				continue
-			}
-			for _, tc := range an.Calls(lit, an.Static(dc+"Trim"), false) {
-				pos = tc.Pos()
-				// receiver: captured variable bound to the installed cache variable
-				recv := slot(tc.Common().Args[0])
-				fv, ok := recv.(*ssa.FreeVar)
-				same := false
-				if ok {
-					for i, f := range lit.FreeVars {
-						if f == fv && i < len(mc.Bindings) {
-							for _, cv := range caches {
-								if mc.Bindings[i] == cv {
-									same = true
-								}
-							}
-						}
+			for _, ci := range an.Calls(wire, an.Static("core/scheduler.Scheduler.SubscribeSlots"), false) {
+				for _, a := range ci.Common().Args {
+					if an.Resolve(a) == ssa.Value(mc) {
+						registered = true
 					}
-				}
-				// epoch: Slot.Epoch() of the subscriber's slot parameter
-				arg := an.Unwrap(tc.Common().Args[1])
-				fromSlot := false
-				if call, ok := arg.(*ssa.Call); ok && an.Static("core.Slot.Epoch")(&call.Call) && len(lit.Params) == 2 {
-					fromSlot = rootedAt(call.Call.Args[0], lit.Params[1])
-				}
-				switch {
-				case !same:
-					why = "Trim is called on something other than the installed duties cache"
-				case !fromSlot:
-					why = "Trim is not called with the epoch of the slot being announced"
-				default:
-					good = true
 				}
 			}
 		}
+		if !registered || len(lit.Params) != 2 {
+			continue
+		}
+		for _, tc := range an.Calls(lit, an.Static(dc+"Trim"), true) {
+			pos = tc.Pos()
+			if tc.Parent() != lit {
+				unsure = "Trim is called from a function nested in the slot subscriber, which is not followed"
+				continue
+			}
+			// receiver: the installed cache variable
+			recv := slot(tc.Common().Args[0])
+			same := false
+			for _, cv := range caches {
+				if recv == cv {
+					same = true
+				}
+			}
+			// epoch: Slot.Epoch() of the subscriber's slot parameter
+			fromSlot := false
+			for _, o := range c19Origins(tc.Common().Args[1]) {
+				if call, ok := an.Unwrap(o).(*ssa.Call); ok && an.Static("core.Slot.Epoch")(&call.Call) {
+					fromSlot = rootedAt(call.Call.Args[0], lit.Params[1]) || c19Only(call.Call.Args[0], lit.Params[1])
+				} else {
+					fromSlot = false
+					break
+				}
+			}
+			switch {
+			case !same:
+				why = "Trim is called on something other than the installed duties cache"
+			case !fromSlot:
+				why = "Trim is not called with the epoch of the slot being announced"
+			default:
+				good = true
+			}
+		}
 	}
-	c.Check("wireCoreWorkflow slot subscriber trims the duties cache", pos, good, why)
+	switch {
+	case good:
+		c.Good("wireCoreWorkflow slot subscriber trims the duties cache", pos, "")
+	case unsure != "":
+		c.Unsure("wireCoreWorkflow slot subscriber trims the duties cache", pos, unsure)
+	default:
+		c.Bad("wireCoreWorkflow slot subscriber trims the duties cache", pos, why)
+	}
 }
